@@ -29,7 +29,7 @@ class C09(Prop):
     stubs = ['torch.save/load -> in-memory', 'torch.distributed -> simulator', 'torch.linalg.* -> uninterpreted with congruence']
     trusted_base = ['z3 5.1.0', 'vkit.symex', 'symtorch shim', 'kfac_ref with load transition (vkit/props/lockstep.py)']
     replay_tol = 5e-3
-    task_timeout = {'quick': 400, 'thorough': 2400}
+    task_timeout = {'quick': 400, 'thorough': 1200}
 
     def bounds(self, tier):
         return {'world': [1, 2] if tier == 'quick' else [1, 2, 4], 'strategies': 'every divisor k', 'checkpoint_position': 'every position of a '
@@ -51,6 +51,8 @@ class C09(Prop):
                         for hp in ('const', 'callable'):
                           i += 1
                           if tier == 'quick' and not pick((w, k, h, method, hp), 6, seed):
+                              continue
+                          if tier == 'thorough' and not pick((w, k, h, method, hp), 2, seed):
                               continue
                           out.append({'harness': 'lockstep', 'world': w, 'k': k, 'ops': h, 'method': method,
                                     'hp': hp, 'intervals': 'callable' if hp == 'callable' else 'sym',
